@@ -96,6 +96,9 @@ func norm(h backend.Handle) backend.Handle {
 
 // Faults is the per-client fault profile (rates in permille per operation).
 type Faults struct {
+	// TimeoutErrs: failing loads may report errors that wrap context.DeadlineExceeded / context.Canceled
+	// (request-level timeouts) although the caller's context is alive
+	TimeoutErrs bool
 	ErrBefore   int // transient error, no effect
 	ErrAfter    int // effect applied (save/remove), transient error reported
 	Torn        int // save: partial file left under the final name + error (non-atomic backends only)
@@ -415,6 +418,9 @@ func (c *Client) Load(ctx context.Context, h backend.Handle, length int, offset 
 		switch {
 		case t.Chance(c.F.ErrBefore):
 			d.kind = "err-before"
+			if c.F.TimeoutErrs {
+				d.arg = t.Choose(3)
+			}
 		case t.Chance(c.F.PartialRead):
 			d.kind = "partial"
 			d.arg = t.Choose(1 << 20)
@@ -429,6 +435,15 @@ func (c *Client) Load(ctx context.Context, h backend.Handle, length int, offset 
 	}
 	if d.kind == "err-before" {
 		c.fire("load-err-before")
+		switch d.arg {
+		case 1:
+			// a request-level timeout of the transport; the caller's context is still alive
+			c.S.Sim.Count("fault:load-timeout-error")
+			return fmt.Errorf("simbe: request failed: %w", context.DeadlineExceeded)
+		case 2:
+			c.S.Sim.Count("fault:load-timeout-error")
+			return fmt.Errorf("simbe: request aborted by the transport: %w", context.Canceled)
+		}
 		return ErrTransient
 	}
 	c.S.mu.Lock()
